@@ -12,7 +12,7 @@
 (*   any exception ("err" non-empty) is not explained by the specification.   *)
 EXTENDS TraceBase, Integers, FiniteSets
 
-CONSTANTS Recs, Obs, Vals, Dev
+CONSTANTS Recs, Obs, Vals, Extra, Dev
 
 VARIABLES l, recs, obs, link, out
 
